@@ -1,10 +1,13 @@
 package props
 
 import (
+	"verif/checker/internal/an"
+
 	"go/ast"
 	"go/constant"
 	"go/token"
 	"go/types"
+	"golang.org/x/tools/go/ssa"
 	"sort"
 	"strings"
 
@@ -523,6 +526,8 @@ func c13(c *Ctx) {
 		}
 	}
 
+	c13WrapperMethods(c)
+
 	// --- methods ----------------------------------------------------------------------------------
 	c13Methods(c, pp, api, tm, &programs, &disagreements)
 
@@ -943,4 +948,94 @@ func calleeObj(pk *packages.Package, call *ast.CallExpr) types.Object {
 		return pk.TypesInfo.Uses[f]
 	}
 	return nil
+}
+
+// c13WrapperMethods (R13.W): the client method of a hand-written wrapper sends the wrapper - on every path the
+// request handed to MakeRequest is the method's own *XParams argument, or an XParams made on the spot whose field k
+// is the method's argument k.  (A wrapper that sends the bare query for some argument value carries the query's
+// id, not the one the schema gives the wrapper.)
+func c13WrapperMethods(c *Ctx) {
+	r := c.R
+	for _, w := range []struct{ method, params string }{{"InitConnection", "InitConnectionParams"}, {"InvokeWithLayer", "InvokeWithLayerParams"}, {"InvokeWithTakeout", "InvokeWithTakeoutParams"}} {
+		f := c.fn("R13.W", load.TgPkg, "*Client", w.method)
+		if f == nil {
+			continue
+		}
+		key := "wrapper-method:" + w.method
+		n := 0
+		var bad []string
+		for _, cs := range an.Calls(f) {
+			if !strings.HasSuffix(cs.Name, ".MakeRequest") && !strings.HasSuffix(cs.Name, ".MakeRequestWithHintToDecoder") {
+				continue
+			}
+			n++
+			args := an.CallArgs(cs.Common)
+			if len(args) < 2 {
+				bad = append(bad, "MakeRequest without a request at "+c.pos(cs.Pos()))
+				continue
+			}
+			v := args[1]
+			if mi, ok := v.(*ssa.MakeInterface); ok {
+				v = mi.X
+			}
+			isParams := func(t types.Type) bool {
+				pt, ok := t.Underlying().(*types.Pointer)
+				if !ok {
+					return false
+				}
+				nm, ok := pt.Elem().(*types.Named)
+				return ok && nm.Obj().Name() == w.params && nm.Obj().Pkg().Path() == load.TgPkg
+			}
+			switch x := v.(type) {
+			case *ssa.Parameter:
+				if !isParams(x.Type()) {
+					bad = append(bad, sprintf("the request at %s is the method's argument %s, which is not a *%s", c.pos(cs.Pos()), x.Name(), w.params))
+				}
+			case *ssa.Alloc:
+				if !isParams(x.Type()) {
+					bad = append(bad, sprintf("the request at %s is a %s, not a *%s", c.pos(cs.Pos()), x.Type(), w.params))
+					break
+				}
+				st := x.Type().Underlying().(*types.Pointer).Elem().Underlying().(*types.Struct)
+				for i := 0; i < st.NumFields(); i++ {
+					ok := false
+					for _, rf := range *x.Referrers() {
+						fa, isFA := rf.(*ssa.FieldAddr)
+						if !isFA || fa.Field != i {
+							continue
+						}
+						for _, r2 := range *fa.Referrers() {
+							if sto, isSt := r2.(*ssa.Store); isSt && sto.Addr == ssa.Value(fa) && i+1 < len(f.Params) {
+								val := sto.Val
+								for {
+									if cv, isC := val.(*ssa.Convert); isC {
+										val = cv.X
+										continue
+									}
+									if cv, isC := val.(*ssa.ChangeType); isC {
+										val = cv.X
+										continue
+									}
+									break
+								}
+								if val == ssa.Value(f.Params[i+1]) {
+									ok = true
+								}
+							}
+						}
+					}
+					if !ok {
+						bad = append(bad, sprintf("field %s of the request at %s is not the method's argument %d", st.Field(i).Name(), c.pos(cs.Pos()), i+1))
+					}
+				}
+			default:
+				bad = append(bad, sprintf("the request at %s is not always a *%s (it is %s: chosen among several values)", c.pos(cs.Pos()), w.params, v.Name()))
+			}
+		}
+		if n == 0 {
+			r.Violate("R13.W", key, c.pos(f.Pos()), "the wrapper method does not call MakeRequest")
+			continue
+		}
+		r.Check(len(bad) == 0, "R13.W", key, c.pos(f.Pos()), strings.Join(bad, "; "))
+	}
 }
